@@ -219,6 +219,10 @@ func (m *Machine) nondetIntrinsic(name string, args []Val) (Val, bool) {
 			cells[i] = mkStr(n)
 		}
 		return Slice{arr: &Array{cells: cells}, len: len(cells), cap: len(cells)}, true
+	case "VerifMaxSteps":
+		// a harness that runs one long concrete computation raises the per-path instruction budget
+		m.maxSteps = m.cInt(args[0], name)
+		return nil, true
 	case "VerifStepBudget":
 		// from here on, running more than n further instructions is a "hang"
 		m.hangLimit = m.steps + m.cInt(args[0], name)
